@@ -117,6 +117,11 @@ inline FrSnap snapFrame(const ezc3d::DataNS::Frame& f) {
         long got = -1; try { got = (long)f.points().pointIdx(s.pts[i].name); } catch (const std::exception&) { got = -1; }
         if (got != (long)want) s.byNameMismatch = "point '" + s.pts[i].name + "' at " + std::to_string(want) + " found at " + std::to_string(got);
     }
+    for (const char* foreign : {"grown", "Z", "Zr", "Zs", "Zh", "NEWP", "A", "B"}) {   // names the harness gives to points of OTHER frames: found here only if this frame holds one
+        if (!s.byNameMismatch.empty()) break; bool has = false; for (auto& q : s.pts) if (q.name == foreign) has = true; if (has) continue;
+        long got = -1; try { got = (long)f.points().pointIdx(foreign); } catch (const std::exception&) { got = -1; }
+        if (got != -1) s.byNameMismatch = std::string("point '") + foreign + "' is not in this frame, yet found at " + std::to_string(got);
+    }
     for (size_t k = 0; k < s.subs.size() && s.byNameMismatch.empty(); ++k) for (size_t i = 0; i < s.subs[k].size() && s.byNameMismatch.empty(); ++i) {
         size_t want = i; for (size_t j = 0; j < i; ++j) if (s.subs[k][j].name == s.subs[k][i].name) { want = j; break; }
         long got = -1; try { got = (long)f.analogs().subframe(k).channelIdx(s.subs[k][i].name); } catch (const std::exception&) { got = -1; }
